@@ -19,11 +19,12 @@ func (d *DotGit) setRef(fileName, content string, old *plumbing.Reference) (err 
 }
 
 func (d *DotGit) setRefRwfs(fileName, content string, old *plumbing.Reference) (err error) {
-	// If we are not checking an old ref, just truncate the file.
+	// The file is emptied by checkReferenceAndTruncate once the lock is held.
+	// O_TRUNC would empty it before: a compare-and-set that holds the lock at
+	// that moment would take the reference for missing (or compare against a
+	// stale packed-refs entry), and content written by a writer that gets the
+	// lock first would be overwritten in place without being cut off.
 	mode := os.O_RDWR | os.O_CREATE
-	if old == nil {
-		mode |= os.O_TRUNC
-	}
 
 	f, err := d.fs.OpenFile(fileName, mode, 0o666)
 	if err != nil && d.removeEmptyDirs(fileName) {
@@ -48,7 +49,6 @@ func (d *DotGit) setRefRwfs(fileName, content string, old *plumbing.Reference) (
 		}
 	}
 
-	// this is a no-op to call even when old is nil.
 	err = d.checkReferenceAndTruncate(f, old)
 	if err != nil {
 		// O_CREATE may just have made an empty file for a reference that is
